@@ -237,17 +237,20 @@ End Exec.
          except (KeyboardInterrupt, SystemExit): pass
      finally:
          if options.output_interval: rt.stop()
-         prof.dump_stats(options.outfile); print('Wrote ...'); <inspect hint>;
-         <the global @profile is handed back: FUninstall> *)
+         <the global @profile is handed back: FUninstall - first, since 5d3505e>
+         <-l: the profiler is switched off if imports / the program left it on>
+         if options.output_interval: rt.stop()
+         prof.dump_stats(options.outfile); print('Wrote ...'); <inspect hint> *)
 Definition absorbed (k : kind) : bool := match k with KKbdInt | KSysExit => true | _ => false end.
 Definition kern_main_gen (prog : stmt) (ctx timed : bool) (outfile : string) : stmt :=
   SSeq (SEff FInstall)
        (SFinally
           (STry (if ctx then SFinally (SSeq (SEff FEnable) prog) (SEff FDisable) else prog)
                 absorbed SSkip)
+          (SSeq (SEff FUninstall)
           (SSeq (if timed then SEff FTimerStop else SSkip)
                 (SSeq (SDump outfile)
-                      (SSeq (SPrint (FWrote outfile)) (SSeq (SPrint FInspect) (SEff FUninstall)))))).
+                      (SSeq (SPrint (FWrote outfile)) (SPrint FInspect)))))).
 
 Definition kern_main (ctx timed : bool) (outfile : string) : stmt := kern_main_gen SProgram ctx timed outfile.
 (* with -i: a RepeatedTimer thread dumps to the same outfile while the program runs *)
@@ -261,10 +264,11 @@ Definition kern_main_flush_first (ctx timed : bool) (outfile : string) : stmt :=
        (SFinally
           (STry (if ctx then SFinally (SSeq (SEff FEnable) SProgram) (SEff FDisable) else SProgram)
                 absorbed SSkip)
+          (SSeq (SEff FUninstall)
           (SSeq SFlush
           (SSeq (if timed then SEff FTimerStop else SSkip)
                 (SSeq (SDump outfile)
-                      (SSeq (SPrint (FWrote outfile)) (SSeq (SPrint FInspect) (SEff FUninstall))))))).
+                      (SSeq (SPrint (FWrote outfile)) (SPrint FInspect))))))).
 
 Definition kern_run (stream : list pev) (kd : kind) (reg : Z -> bool) (out : ostate)
            (ctx timed : bool) (outfile : string) :=
